@@ -341,8 +341,39 @@ func (hs *serverHandshakeState) checkForResumption() bool {
 	if sessionHasClientCerts && c.config.ClientAuth == NoClientCert {
 		return false
 	}
+	if !c.clientCertsStillVerify(hs.sessionState.certificates) {
+		return false
+	}
 
 	return true
+}
+
+// clientCertsStillVerify reports whether the client certificate chain stored in a
+// session ticket is acceptable under the current configuration (same checks as
+// processCertsFromClient, without alerts): a resumption that would fail on the
+// stored chain must not be started, the server does a full handshake instead.
+func (c *Conn) clientCertsStillVerify(certificates [][]byte) bool {
+	if c.config.ClientAuth < VerifyClientCertIfGiven || len(certificates) == 0 {
+		return true
+	}
+	certs := make([]*x509.Certificate, len(certificates))
+	for i, asn1Data := range certificates {
+		var err error
+		if certs[i], err = x509.ParseCertificate(asn1Data); err != nil {
+			return false
+		}
+	}
+	opts := x509.VerifyOptions{
+		Roots:         c.config.ClientCAs,
+		CurrentTime:   c.config.time(),
+		Intermediates: x509.NewCertPool(),
+		KeyUsages:     []x509.ExtKeyUsage{x509.ExtKeyUsageClientAuth},
+	}
+	for _, cert := range certs[1:] {
+		opts.Intermediates.AddCert(cert)
+	}
+	_, err := certs[0].Verify(opts)
+	return err == nil
 }
 
 func (hs *serverHandshakeState) doResumeHandshake() error {
